@@ -21,7 +21,12 @@ CHECKS={
         "Every construction, every ordered pair, every triple and every arithmetic result over a 38-value grid of special doubles (and all 156 vectors of length <= 3 over a 5-value grid for the multi-objective type) is executed on the real types and compared with IEEE/Pareto reference semantics. Exhaustive over the grid; a sample-free decision for every value class the code can distinguish.",
         "Values outside the grid are assumed to behave like their class representative (zero, subnormal, ordinary, huge, infinite, NaN): the implementation only branches on is_nan / is_infinite / sign.",
         "DESIGN.md 5 C09"),
+ "C11":("choice-tape explorer","stateless exhaustive exploration of every selection operator on every small tagged population under all generator-word tapes up to a prefix depth (scripted RngCore backend), plus an exhaustive sweep of the first generator word to decide selection weights as measures",
+        "Every operator x every population of size 0..3 (quick) / 0..4 (thorough) over the objective grid {-1,0,1,+inf} (plus positive-only and DE-sized populations) x every requested count 0..n+1 is executed on the real component for every tape of menu words over the first 3 (quick) / 4 (thorough) generator draws; stack effect, exact-copy membership, counts, documented errors and structural rules (distinctness, tournament-of-all = best, DE group layout) are checked on each execution. Selection pressure is decided exactly: the share of 256 / 4096 evenly spaced first words that select each individual must be monotone in the objective.",
+        "Random behaviour is covered for all generator answers in the menu within the prefix depth; later draws follow the default stream. Inputs the documentation leaves open (empty population without an Errors section, tournament size 0 or > n, DE selection on < 2y+1 individuals) are outside the alphabet.",
+        "DESIGN.md 5 C11"),
 }
+CHECKS_DONE=1
 BASE=json.load(open('/root/.vp/BASELINE.json'))
 m={
  "version":1,
